@@ -42,7 +42,7 @@ fn conv<T: TryInto<Timestamp, Error = TimestampError>>(t: T) -> Result<Result<u3
     panics::catch(|| t.try_into().map(|t: Timestamp| t.0))
 }
 
-const OFFSETS: [i32; 9] = [0, 3600, -3600, 19800, 20700, -43200, 50400, 45900, -34200];
+const OFFSETS: [i32; 15] = [0, 3600, -3600, 19800, 20700, -43200, 50400, 45900, -34200, 32, -32, 1172, -1172, 86399, -86399];
 
 impl Property for C20 {
     type Case = C20Case;
@@ -51,7 +51,7 @@ impl Property for C20 {
         C20
     }
     fn rule(&self) -> String {
-        "every second in windows of +-5000 (quick) / +-100000 (thorough) around 0, 2^31 and 2^32 with nanoseconds {0, 1, 5e8, 999999999}, each through SystemTime, chrono DateTime<Utc> and DateTime<FixedOffset> (9 offsets incl. :30/:45); extreme representable values; seeded random instants over +-2^40 s; builder source files with mtimes before 1970 and after 2106. Non-trivial = instant within 5000 s of a boundary or outside 0..2^32; distinct by (secs, nanos, offset).".into()
+        "every second in windows of +-5000 (quick) / +-100000 (thorough) around 0, 2^31 and 2^32 with nanoseconds {0, 1, 5e8, 999999999}, each through SystemTime, chrono DateTime<Utc> and DateTime<FixedOffset> (15 offsets incl. :30/:45 zones, sub-minute offsets such as +00:19:32 and the extremes +-23:59:59); extreme representable values; seeded random instants over +-2^40 s; builder source files with mtimes before 1970 and after 2106. Non-trivial = instant within 5000 s of a boundary or outside 0..2^32; distinct by (secs, nanos, offset).".into()
     }
     fn assumptions(&self) -> Vec<String> {
         vec!["expected value = floor(instant in seconds) computed in i128 from the construction parameters".into()]
@@ -72,7 +72,7 @@ impl Property for C20 {
                     let j = i / 4;
                     let center = [0i64, 1 << 31, 1 << 32][(j / per) as usize];
                     let secs = center - w + (j % per) as i64;
-                    Some(C20Case::Instant { secs, nanos, tz_offset: OFFSETS[(j % 9) as usize] })
+                    Some(C20Case::Instant { secs, nanos, tz_offset: OFFSETS[(j % 15) as usize] })
                 }),
             },
             Phase::Enumerate { name: "extremes", total: 10, exhaustive: true, gen: Arc::new(|i| Some(C20Case::Extreme(i as u8))) },
